@@ -13,6 +13,7 @@ import Vlsp.Spec.RefEco
 import Vlsp.Model.Checker
 import Vlsp.Model.Claim
 import Vlsp.Model.Fetch
+import Vlsp.Model.Txn
 
 /-! Line-protocol plumbing shared by the driver's op tables. -/
 namespace DriverLib
@@ -127,6 +128,7 @@ def specDiag (eco latest tagres cur : Text) (versions : List Text) : String :=
 def intOfText (t : Text) : Int := (String.ofList t).toInt!
 
 structure DState where
+  schemaDone : Bool := false
   claim : Claim.Sys := Claim.init {} 0
   db : Db := {}
   cfg : CacheCfg := ⟨86400000, true⟩
@@ -191,12 +193,54 @@ def parseJobs (f : List Text) : List Fetch.Job :=
 def sortTexts (xs : List Text) : List Text :=
   (xs.map String.ofList).mergeSort (fun a b => a ≤ b) |>.map String.toList
 
+/-- the statement points an operation passes, in order, each with the database that a crash / error
+    at that point leaves behind; and the result + database when it completes -/
+def crashPoints (st : DState) (op : List Text) : List (String × Db) × String × Db :=
+  let db := st.db
+  match op with
+  | opn :: reg :: name :: rest =>
+    let k : Key := ⟨reg, name⟩
+    match String.ofList opn with
+    | "replace" =>
+      let p := Txn.replaceProg k rest st.now
+      let n := rest.length
+      let names := ["replace.begin", "replace.after_upsert"] ++ List.replicate n "replace.after_version" ++
+        ["replace.before_commit"]
+      let idx : List Nat := [0, 1] ++ (List.range n).map (· + 2) ++ [1 + n]
+      (((names.zip idx).map fun (nm, i) => (nm, Txn.crashAt p i db)) ++ [("replace.after_commit", p.full db)],
+        "ok", Cache.replaceVersions db k rest st.now)
+    | "tags" =>
+      let tags := pairs rest
+      if tags.isEmpty then ([], "ok", db)
+      else
+        let p := Txn.tagsProg k tags st.now
+        let names := ["tags.begin", "tags.after_upsert", "tags.after_delete"] ++ List.replicate tags.length "tags.after_tag" ++
+          ["tags.before_commit"]
+        let idx : List Nat := [0, 1, 2] ++ (List.range tags.length).map (· + 3) ++ [2 + tags.length]
+        (((names.zip idx).map fun (nm, i) => (nm, Txn.crashAt p i db)) ++ [("tags.after_commit", p.full db)],
+          "ok", Cache.saveDistTags db k tags st.now)
+    | "claim" =>
+      let (db1, cnt) := db.stmtClaimUpdate k st.now (st.now - Generated.fetchTimeoutMs)
+      let r := Cache.tryStartFetch db k st.now
+      if cnt > 0 then ([("claim.before_update", db)], tf r.2, r.1)
+      else ([("claim.before_update", db), ("claim.before_insert", db1)], tf r.2, r.1)
+    | "finish" => ([("finish.before_update", db)], "ok", Cache.finishFetch db k)
+    | "mark" => ([("mark.before_update", db)], "ok", Cache.markNotFound db k st.now)
+    | _ => ([], "?", db)
+  | [opn] =>
+    if String.ofList opn == "open" then
+      if st.schemaDone then ((["schema.1", "schema.2", "schema.3", "schema.4", "schema.5", "schema.6"].map fun n => (n, db)), "ok", db)
+      else ((["schema.1", "schema.2", "schema.3", "schema.4", "schema.5", "schema.6", "migrate.before_stmt",
+              "migrate.before_stmt", "migrate.before_user_version"].map fun n => (n, db)), "ok", db)
+    else ([], "?", db)
+  | _ => ([], "?", db)
+
 /-- stateful cache ops; `none` when the op is not a cache op -/
 def cacheStep (st : DState) (op : String) (f : List Text) : Option (DState × String) :=
   match op, f with
   | "c.reset", [ip, interval] =>
-    some ({ db := {}, cfg := ⟨intOfText interval, ip == ['T']⟩, now := 0 }, "ok")
-  | "c.open", [_] => some (st, "ok")
+    some ({ db := {}, cfg := ⟨intOfText interval, ip == ['T']⟩, now := 0, schemaDone := false }, "ok")
+  | "c.open", [_] => some ({ st with schemaDone := true }, "ok")
   | "c.close", [_] => some (st, "ok")
   | "c.now", [t] => some ({ st with now := intOfText t }, "ok")
   | "c.replace", _ :: reg :: name :: vs =>
@@ -223,6 +267,22 @@ def cacheStep (st : DState) (op : String) (f : List Text) : Option (DState × St
     let tagO : Option Text := match tag with | 'S' :: r => some r | _ => none
     let ansO : Option Text := match ans with | 'S' :: r => some r | _ => none
     some (st, tf (Spec.LatestSpec.acceptable (ip == ['T']) tagO rows ansO))
+  | "crash.run", _ :: n :: op =>
+    let (pts, res, full) := crashPoints st op
+    let i := natOfText n
+    match pts[i - 1]? with
+    | some (nm, d) => if i == 0 then some ({ st with db := full, schemaDone := true }, s!"completed:{res} reopen-ok")
+                      else some ({ st with db := d, schemaDone := true }, s!"died@{nm} reopen-ok")
+    | none => some ({ st with db := full, schemaDone := true }, s!"completed:{res} reopen-ok")
+  | "crash.fail", n :: op =>
+    let (pts, res, full) := crashPoints st op
+    let i := natOfText n
+    match pts[i - 1]? with
+    | some (nm, d) => if i == 0 then some ({ st with db := full, schemaDone := true }, s!"completed:{res} reopen-ok")
+                      else
+                        let r := if (String.ofList (op.headD [])) == "open" then "open-E:db" else "E:db"
+                        some ({ st with db := d, schemaDone := true }, s!"failed@{nm}:{if nm.startsWith "schema" || nm.startsWith "migrate" then "E:db" else r} reopen-ok")
+    | none => some ({ st with db := full, schemaDone := true }, s!"completed:{res} reopen-ok")
   | "fetch.missing", reg :: gf :: jobs =>
     let r := Fetch.fetchMissing st.db reg st.now (parseJobs jobs) (List.elem 'F' gf)
     some ({ st with db := r.db }, s!"fetched={listStr r.fetched} requested={listStr r.requested}")
